@@ -851,6 +851,20 @@ pub fn gen_txn(r: &mut Rng, date: i32, b: &Bias, bal: &mut Bal, formats: &BTreeM
                 cur
             };
             p.balance = Some(plain_lit(shown, comm));
+            // ill-typed asserted values must be rejected, not skipped: a non-zero bare number
+            // (commodity forgotten) or a sum over two commodities
+            if r.chance(1, 25) {
+                p.balance = Some(if r.chance(1, 2) {
+                    VE::Amt(Lit { m: 1 + r.below(999) as i64, scale: 0, comm: None, grouped: false })
+                } else {
+                    let oc = (comm + 1 + r.below(4) as usize) % COMMODITIES.len();
+                    VE::Paren(Box::new(Ex::Bin(
+                        Op::Add,
+                        Box::new(Ex::Val(Box::new(plain_lit(shown, comm)))),
+                        Box::new(Ex::Val(Box::new(plain_lit(Decimal::new(1 + r.below(50) as i64, 0), oc)))),
+                    )))
+                });
+            }
         }
         posts.push(p);
     }
